@@ -666,3 +666,79 @@ def random_world(rng, ctype):
 def random_worlds(rng, n):
     for _ in range(n):
         yield random_world(rng, rng.choice(list(CTYPE_CLASS)))
+
+
+# ----------------------------------------------------------------------------- recorded documents (not produced by TLC)
+CLASS_KIND = [(data.User, "user"), (data.Tag, "tag"), (data.Recording, "recording"), (data.Clip, "clip"),
+              (data.SoundEvent, "sound_event"), (data.Sequence, "sequence"), (data.SoundEventAnnotation, "se_ann"),
+              (data.SequenceAnnotation, "seq_ann"), (data.ClipAnnotation, "clip_ann"), (data.SoundEventPrediction, "se_pred"),
+              (data.SequencePrediction, "seq_pred"), (data.ClipPrediction, "clip_pred"), (data.Match, "match"),
+              (data.ClipEvaluation, "clip_eval"), (data.AnnotationTask, "task")]
+
+
+def objs_of(root):
+    """(kind, identifier) of every distinct object reachable from a collection: generic walk over model_fields."""
+    found, rev, stack, seen = {}, {}, [root], set()
+    while stack:
+        x = stack.pop()
+        if isinstance(x, BaseModel):
+            if id(x) in seen:
+                continue
+            seen.add(id(x))
+            for cls, kind in CLASS_KIND:
+                if type(x) is cls:
+                    if kind == "tag":
+                        key = (x.term.label, x.value)
+                        name = f"tag:{x.term.label}={x.value}"
+                        rev[key] = name
+                    else:
+                        name = str(x.uuid)
+                        rev[name] = name
+                    found[(kind, name)] = True
+                    break
+            for f in type(x).model_fields:
+                stack.append(getattr(x, f))
+        elif isinstance(x, (list, tuple)):
+            stack.extend(x)
+    return [{"id": n, "kind": k} for (k, n) in sorted(found)], rev
+
+
+def run_recorded(path: Path, workdir: Path):
+    """load a bundled document, save it again, analyse what was written, load that and compare (C01 + C02 observation)."""
+    tmp = Path(tempfile.mkdtemp(prefix="aoefr_", dir=str(workdir)))
+    try:
+        first = io.load(path)
+        objs, rev = objs_of(first)
+        ctype = next((k for k, c in CTYPE_CLASS.items() if type(first) is c), type(first).__name__)
+        cycles, cur, first_doc = [], first, None
+        for n in range(2):
+            f = tmp / f"r{n}.json"
+            saved, _ = outcome_of(lambda: io.save(cur, f))
+            rec = {"saved": saved, "loaded": "", "type": "?", "diff": [], "docdiff": [],
+                   "doc": {"defs": {k: [] for k in KINDS}, "refs": [], "parents": []}}
+            if saved == "":
+                text = f.read_text()
+                rec["doc"], _, _ = analyse_doc(text, rev)
+                dj = doc_without_wrapper_time(text)
+                if first_doc is None:
+                    first_doc = dj
+                else:
+                    rec["docdiff"] = json_diff(first_doc, dj)
+                rec["loaded"], obj = outcome_of(lambda: io.load(f))
+                if rec["loaded"] == "":
+                    rec["type"] = next((k for k, c in CTYPE_CLASS.items() if type(obj) is c), type(obj).__name__)
+                    rec["diff"] = diff(first, obj)
+                    cur = obj
+            cycles.append(rec)
+        return {"src": "bundled:" + path.name, "in": {"ctype": ctype, "objs": objs, "sw": ["recorded"], "file": path.name},
+                "out": {"cycles": cycles}}
+    finally:
+        shutil.rmtree(tmp, ignore_errors=True)
+
+
+def bundled(tier):
+    d = Path(os.environ.get("VERIF_SRC", "/repo/src")).parent / "tests" / "data"
+    if not d.exists():
+        d = Path("/repo/tests/data")
+    files = sorted(d.glob("*.json"), key=lambda p: p.stat().st_size)
+    return [p for p in files if tier == "thorough" or p.stat().st_size < 400_000]
